@@ -52,13 +52,13 @@ type vfEntry struct {
 }
 
 func (g *vfGen) body(n int) []byte {
-	if g.rng.Intn(3) == 0 {
+	if g.intn(3) == 0 {
 		// highly compressible (XML-like repetition): compressed size << uncompressed size
 		return bytes.Repeat([]byte("<Override PartName=\"/x\" ContentType=\"y\"/>"), 2+n/20)
 	}
 	b := make([]byte, n)
 	for i := range b {
-		b[i] = "abcdefghijklmnopqrstuvwxyz <>/=\"\n"[g.rng.Intn(33)]
+		b[i] = "abcdefghijklmnopqrstuvwxyz <>/=\"\n"[g.intn(33)]
 	}
 	return b
 }
@@ -126,7 +126,7 @@ func (g *vfGen) genC19() {
 	near := []string{"words/document.xml", "Xl/workbook.xml", "pptx/presentation.xml", "wordcount.txt", "xlarge/picture.png", "images/word/doc.xml"}
 	other := []string{"images/picture-0001.png", "data/readme-file.txt", "assets/stylesheet.css", "META-INF/container.xml", "content/chapter-01.xhtml"}
 	mk := func(name string) vfEntry {
-		return vfEntry{name: name, body: g.body(30 + g.rng.Intn(200)), stored: g.rng.Intn(3) == 0, nodesc: g.rng.Intn(4) == 0}
+		return vfEntry{name: name, body: g.body(30 + g.intn(200)), stored: g.intn(3) == 0, nodesc: g.intn(4) == 0}
 	}
 	emit := func(es []vfEntry) {
 		z := vfZip(es)
@@ -138,7 +138,7 @@ func (g *vfGen) genC19() {
 	exact := func(n int) []byte {
 		b := make([]byte, n)
 		for i := range b {
-			b[i] = byte('a' + g.rng.Intn(26))
+			b[i] = byte('a' + g.intn(26))
 		}
 		return b
 	}
@@ -147,7 +147,7 @@ func (g *vfGen) genC19() {
 			fam := []string{"docx", "xlsx", "pptx"}[(total+pos)%3]
 			es := []vfEntry{mk("[Content_Types].xml")}
 			for len(es) < pos {
-				es = append(es, mk(book[g.rng.Intn(len(book))]))
+				es = append(es, mk(book[g.intn(len(book))]))
 			}
 			name := "_rels/.rels"
 			if total%2 == 0 {
@@ -155,14 +155,14 @@ func (g *vfGen) genC19() {
 			}
 			if total-len(name) >= 0 {
 				es = append(es, vfEntry{name: name, body: exact(total - len(name)), stored: true, nodesc: true})
-				es = append(es, mk(markers[fam][0]), mk(other[g.rng.Intn(len(other))]))
+				es = append(es, mk(markers[fam][0]), mk(other[g.intn(len(other))]))
 				emit(es)
 			}
 			if total-len(name)-16 >= 0 {
 				// the same span made of name + body + 16-byte data descriptor
 				es2 := []vfEntry{mk("[Content_Types].xml")}
 				for len(es2) < pos {
-					es2 = append(es2, mk(book[g.rng.Intn(len(book))]))
+					es2 = append(es2, mk(book[g.intn(len(book))]))
 				}
 				es2 = append(es2, vfEntry{name: name, body: exact(total - len(name) - 16), stored: true, nodesc: false})
 				es2 = append(es2, mk(markers[fam][0]))
@@ -175,7 +175,7 @@ func (g *vfGen) genC19() {
 		for k := 1; k <= 5; k++ {
 			var es []vfEntry
 			for j := 0; j < k-1; j++ {
-				es = append(es, mk(other[g.rng.Intn(len(other))]))
+				es = append(es, mk(other[g.intn(len(other))]))
 			}
 			if k%2 == 0 {
 				es = append([]vfEntry{mk("[Content_Types].xml")}, es...)
@@ -186,36 +186,36 @@ func (g *vfGen) genC19() {
 	}
 	n := g.pick(250, 6000)
 	for i := 0; i < n; i++ {
-		switch g.rng.Intn(7) {
+		switch g.intn(7) {
 		case 0, 1, 2: // OOXML: marker of one family at entry position 2..9
-			fam := []string{"docx", "xlsx", "pptx"}[g.rng.Intn(3)]
-			pos := 1 + g.rng.Intn(8)
+			fam := []string{"docx", "xlsx", "pptx"}[g.intn(3)]
+			pos := 1 + g.intn(8)
 			es := []vfEntry{mk("[Content_Types].xml")}
-			if g.rng.Intn(10) == 0 {
-				es[0] = mk([]string{"_rels/.rels", "docProps/app.xml", "customXml/item1.xml", "[trash]/0000.dat"}[g.rng.Intn(4)])
+			if g.intn(10) == 0 {
+				es[0] = mk([]string{"_rels/.rels", "docProps/app.xml", "customXml/item1.xml", "[trash]/0000.dat"}[g.intn(4)])
 			}
 			for len(es) < pos {
 				pool := book
-				if g.rng.Intn(4) == 0 {
+				if g.intn(4) == 0 {
 					pool = near
 				}
-				es = append(es, mk(pool[g.rng.Intn(len(pool))]))
+				es = append(es, mk(pool[g.intn(len(pool))]))
 			}
 			for _, m := range markers[fam] {
 				es = append(es, mk(m))
 			}
-			es = append(es, mk(other[g.rng.Intn(len(other))]))
+			es = append(es, mk(other[g.intn(len(other))]))
 			emit(es)
 		case 3: // JAR / APK
 			es := []vfEntry{mk("META-INF/MANIFEST.MF")}
-			if g.rng.Intn(2) == 0 {
-				k := g.rng.Intn(7)
+			if g.intn(2) == 0 {
+				k := g.intn(7)
 				for j := 0; j < k; j++ {
-					es = append(es, mk(other[g.rng.Intn(len(other))]))
+					es = append(es, mk(other[g.intn(len(other))]))
 				}
-				es = append(es, mk([]string{"AndroidManifest.xml", "classes.dex", "resources.arsc", "res/drawable/icon.png"}[g.rng.Intn(4)]))
+				es = append(es, mk([]string{"AndroidManifest.xml", "classes.dex", "resources.arsc", "res/drawable/icon.png"}[g.intn(4)]))
 			} else {
-				for j := 0; j < 1+g.rng.Intn(5); j++ {
+				for j := 0; j < 1+g.intn(5); j++ {
 					es = append(es, mk(fmt.Sprintf("com/example/Class%04d.class", j)))
 				}
 			}
@@ -227,23 +227,23 @@ func (g *vfGen) genC19() {
 				"application/vnd.oasis.opendocument.graphics", "application/vnd.oasis.opendocument.graphics-template",
 				"application/vnd.oasis.opendocument.formula", "application/vnd.oasis.opendocument.chart",
 				"application/epub+zip", "application/vnd.sun.xml.calc"}
-			t := types[g.rng.Intn(len(types))]
-			es := []vfEntry{{name: "mimetype", body: []byte(t), stored: true, nodesc: g.rng.Intn(2) == 0}}
+			t := types[g.intn(len(types))]
+			es := []vfEntry{{name: "mimetype", body: []byte(t), stored: true, nodesc: g.intn(2) == 0}}
 			es = append(es, mk("META-INF/manifest.xml"), mk("content.xml"), mk("styles.xml"))
 			emit(es)
 		case 5: // no marker at all
 			var es []vfEntry
-			for j := 0; j < 1+g.rng.Intn(8); j++ {
+			for j := 0; j < 1+g.intn(8); j++ {
 				pool := other
-				if g.rng.Intn(3) == 0 {
+				if g.intn(3) == 0 {
 					pool = near
 				}
-				es = append(es, mk(pool[g.rng.Intn(len(pool))]))
+				es = append(es, mk(pool[g.intn(len(pool))]))
 			}
 			emit(es)
 		default: // marker first
-			fam := []string{"docx", "xlsx", "pptx"}[g.rng.Intn(3)]
-			es := []vfEntry{mk(markers[fam][0]), mk("[Content_Types].xml"), mk(book[g.rng.Intn(len(book))])}
+			fam := []string{"docx", "xlsx", "pptx"}[g.intn(3)]
+			es := []vfEntry{mk(markers[fam][0]), mk("[Content_Types].xml"), mk(book[g.intn(len(book))])}
 			emit(es)
 		}
 	}
